@@ -262,14 +262,14 @@ pub fn instance_of(name: &str) -> Option<(usize, &'static [u8], usize, [u8; KMAX
         "c01_k1_d" | "c01_k1_d_flags" => (1, b"t", NF, [D, D, D]),
         "c01_k1_n" => (1, b"t", NF, [N, D, D]),
         "c01_k1_e" => (1, b"t", NF, [E, D, D]),
-        "c01_k1_d_f0" | "c06_k1_malformed" | "c06_k1_truncated" => (1, b"t", 0, [D, D, D]),
+        "c01_k1_d_f0" | "c06_k1_malformed" | "c06_k1_truncated" | "c06_k1_wrong_shape" => (1, b"t", 0, [D, D, D]),
         "c01_k2_dd" | "c01_k2_err_first" | "c01_k2_upgrade_first" => (2, b"t", NF, [D, D, D]),
         "c01_k2_nd" => (2, b"t", NF, [N, D, D]),
         "c01_k2_dn" => (2, b"t", NF, [D, N, D]),
         "c01_k2_ed" => (2, b"t", NF, [E, D, D]),
         "c01_k2_nn" => (2, b"t", NF, [N, N, D]),
-        "c01_k2_dd_f1" | "c06_k2_second_malformed" | "c06_k2_second_truncated" => (2, b"t", 1, [D, D, D]),
-        "c01_k2_dd_f0" | "c06_k2_first_malformed" | "c06_k2_first_truncated" => (2, b"t", 0, [D, D, D]),
+        "c01_k2_dd_f1" | "c06_k2_second_malformed" | "c06_k2_second_truncated" | "c06_k2_second_wrong_shape" => (2, b"t", 1, [D, D, D]),
+        "c01_k2_dd_f0" | "c06_k2_first_malformed" | "c06_k2_first_truncated" | "c06_k2_first_wrong_shape" => (2, b"t", 0, [D, D, D]),
         "c01_k3_ddd" | "c01_k3_err_second" => (3, b"", NF, [D, D, D]),
         "c01_k3_dnd" => (3, b"", NF, [D, N, D]),
         "c01_k3_ddd_f2" => (3, b"", 2, [D, D, D]),
@@ -306,7 +306,13 @@ pub fn instance<S: Src>(name: &str, s: &mut S) -> Outcome {
         }
     }
     // a truncated document (serde_json: EOF while parsing) or a syntax error
-    let malformed = if name.contains("truncated") { "{\"method\":" } else { "{\"method\":}" };
+    let malformed = if name.contains("truncated") {
+        "{\"method\":"
+    } else if name.contains("wrong_shape") {
+        "{\"method\":42}"
+    } else {
+        "{\"method\":}"
+    };
     run_stream(&sc, tail, name.ends_with("_flags"), malformed)
 }
 
